@@ -98,6 +98,17 @@ def edits(rng, j, tag):
     out.append(E('annotations-empty', lambda k: k.__setitem__('annotations', []), 'err'))
     out.append(E('rc_min=2^32', lambda k: k['public_input'].__setitem__('rc_min', 1 << 32), 'err'))
     out.append(E('key-missing', lambda k: k.pop('proof_parameters'), 'err'))
+    dp = j['public_input'].get('dynamic_params')
+    if dp:
+        keys = sorted(dp)
+        out.append(E('dynparams-339', lambda k: k['public_input']['dynamic_params'].pop(keys[17]), 'err'))
+        out.append(E('dynparams-341', lambda k: k['public_input']['dynamic_params'].__setitem__('zzz_extra', 1), 'err'))
+        out.append(E('dynparams-value+1', lambda k: k['public_input']['dynamic_params'].__setitem__(keys[5], dp[keys[5]] + 1), 'ok'))
+        out.append(E('dynparams-step=2^28', lambda k: k['public_input']['dynamic_params'].__setitem__('cpu_component_step', 1 << 28), 'err'))
+    else:
+        out.append(E('dynparams-one-key-on-static', lambda k: k['public_input'].__setitem__('dynamic_params', {'a': 1}), 'err'))
+        out.append(E('dynparams-empty-on-static', lambda k: k['public_input'].__setitem__('dynamic_params', {}), 'ok'))
+    out.append(E('log_n_cosets=2^32-1', lambda k: k['proof_parameters']['stark'].__setitem__('log_n_cosets', (1 << 32) - 1), 'err'))
     return [e for e in out if e]
 
 
@@ -131,11 +142,40 @@ def nontrivial(c, co):
     return c['kind'] != 'shipped'
 
 
+# edit classes on which the real regex-based parser is knowingly more lenient than the file format (recorded as known findings)
+LENIENT = {'duplicated': 'duplicate-or-misordered-annotation', 'swapped': 'duplicate-or-misordered-annotation',
+           'hash-before-data': 'hash-before-data-reordered', 'badhex': 'garbled-line-skipped', 'removed': 'garbled-line-skipped'}
+
+
+def disagreement(c, co, mo):
+    """the independent Lean loader is the specification of the file format here"""
+    kind = c['kind'].split(':')[-1]
+    if co[0] == 'panic':
+        return None                      # reported by the oracle
+    if co[0] == 'err' and mo[0] == 'ok':
+        # the real parser validates data that never reaches the verifier (continuous pages, number of V->P interaction lines)
+        return None if ('page1' in kind or kind.startswith('memory')) else {'key': 'rejects:' + kind, 'what': f"the real parser rejects a file the format accepts ({c['name']})"}
+    if co[0] == 'ok' and mo[0] == 'err':
+        for suffix, key in LENIENT.items():
+            if kind.endswith(suffix):
+                return {'key': 'lenient:' + key, 'what': f"the real parser converted a file the format rejects ({c['name']}: {mo[1] if len(mo) > 1 else ''})"}
+        return {'key': 'lenient:' + kind, 'what': f"the real parser converted a file the format rejects ({c['name']})"}
+    if co[0] == 'ok' and mo[0] == 'ok':
+        for suffix, key in LENIENT.items():
+            if kind.endswith(suffix):
+                return {'key': 'differs:' + key, 'what': f"the converted proof differs from the file's stream order ({c['name']})"}
+        return {'key': 'differs:' + kind, 'what': f"the converted proof differs from what the file says ({c['name']})"}
+    return 'broken'
+
+
 def oracle(c, co):
     if co[0] == 'panic':
         return {'key': 'panic:' + co[1].split(' ')[0].replace('/repo/', '').rsplit(':', 1)[0], 'what': f"parser/conversion panicked on {c['name']}: {co[1][:160]}"}
     if c['expect'] == 'ok' and co[0] != 'ok':
         return {'key': 'rejects:' + c['kind'], 'what': f"well-formed file rejected ({c['name']}): {co[1][:120]}"}
     if c['expect'] == 'err' and co[0] == 'ok':
-        return {'key': 'accepts:' + c['kind'].split(':')[-1], 'what': f"malformed / non-fitting file converted without error ({c['name']})"}
+        kind = c['kind'].split(':')[-1]
+        if kind.endswith('badhex'):
+            return {'key': 'lenient:garbled-line-skipped', 'what': f"an annotation line with an unparsable payload was skipped instead of rejected ({c['name']})"}
+        return {'key': 'accepts:' + kind, 'what': f"malformed / non-fitting file converted without error ({c['name']})"}
     return None
